@@ -1066,5 +1066,6 @@ MATCHERS = {
     "c07_generated_comment_type": lambda f: _only(f, ("affinity",), ["cons:generated", "cmt:cons-inner"],
                                                   ["cmt2:cons-inner", "cmtonly:cons-inner", "cmtadj:cons-inner", "ws1:cons-inner",
                                                    "wsrun:cons-inner", "slash-star-slash:cons-inner"]),
+    "c07_empty_table_name": lambda f: _only(f, ("rejected",), ["table-ident:empty"], ["table-quote:"]),
     "c07_ident_whitespace": lambda f: _only(f, _ANYKIND, ["ident:whitespace"]) or _only(f, _ANYKIND, ["table-ident:whitespace"]),
 }
